@@ -185,9 +185,101 @@ def run_shard(spec, tier, seed):
                 res.sample({"op": op.name, "dim": dim, "signature": sig, "label": draw.label,
                             "self": self_l.describe(), "args": [E.describe_arg(a) for a in args],
                             "result": _show(out[1]) if out[0] == "ok" else out[1:]})
+        _float64_layer(op, dim, odims, tier, seed, res)
     for v in tap.SEEN:
         res.add_to("variants_seen", f"{v[0]}:{','.join(v[1])}")
     return res
+
+
+F_TOL = mpf(10) ** -9
+DRAWS_F = {"quick": 10, "thorough": 400}
+
+
+def _float64_layer(op, dim, odims, tier, seed, res):
+    """the same metamorphic comparison in float64 ("the same up to floating-point rounding"): well-conditioned
+    operands (incl. the collinear and exact-zero strata) re-expressed in every signature as float64 object vectors; each
+    result against the all-Cartesian one at 1e-9 of the scale (x the conditioning of the definition).  What 60 digits
+    cannot show -- a clamp that is missing where rounding pushes a cosine past 1, cancellation in one variant --
+    shows here."""
+    from .c02 import _f64_ok
+
+    r = gen.rng(seed, "C01f64", op.name, dim)
+    done = 0
+    guard = 0
+    while done < DRAWS_F[tier] and guard < 20 * DRAWS_F[tier]:
+        guard += 1
+        draw = W.make_draw(op, dim, r, core=True, mp=False, odim=odims[done % len(odims)], unit_quat=True)
+        if not _f64_ok(op, draw):
+            continue
+        done += 1
+        outs = []
+        for s_self, s_other, order in W.systems_for(draw):
+            try:
+                self_l, args = W.instantiate(draw, s_self, s_other, order, flip_momentum=(done % 3 == 1), upper=(done % 4 == 3))
+                for x in (self_l, *args):
+                    if isinstance(x, E.LVec):
+                        x.f64()
+            except R.NotRepresentable:
+                continue
+            sig = (R.sysname(s_self), R.sysname(s_other) if s_other else "-", order or "-")
+            res.evaluations += 1
+            try:
+                outs.append((sig, self_l, args, ("ok", E.eval_obj(op, self_l, args))))
+            except Exception as e:
+                outs.append((sig, self_l, args, ("exc", type(e).__name__, str(e)[:200])))
+        bases = {}
+        for sig, self_l, args, out in outs:
+            if self_l.system == CART[dim] and all(a.system == CART[a.rv.dim] for a in args if isinstance(a, E.LVec)):
+                bases[sig[2]] = out
+        for sig, self_l, args, out in outs:
+            cellkey = f"{op.name}|{dim}|{'|'.join(sig)}"
+            bout = bases.get(sig[2])
+            if bout is None or bout[0] == "exc" or out[0] == "exc":
+                if bout is not None and bout[0] != out[0]:
+                    res.count("float64:exception_for_one_signature_only(" + (out[1] if out[0] == "exc" else bout[1]) + ")")
+                continue
+            got, exp = out[1], bout[1]
+            if not E.is_finite_result(exp):
+                continue
+            unit = E.unit_scale(self_l, args, True)
+            gain = E.arg_gain(op, args)
+            if op.result == "bool":
+                if op.predicate_margin is not None:
+                    try:
+                        m = op.predicate_margin(E.ref_arg(self_l, True), *[E.ref_arg(a, True) for a in args])
+                    except R.Undefined:
+                        continue
+                    if m < mpf(10) ** -6:
+                        continue
+                if bool(got) != bool(exp):
+                    res.violation(f"C01/bool-differs op={op.name} dim={dim} float64",
+                                  {"cell": cellkey, "got": got, "cartesian": exp, "self": self_l.describe(),
+                                   "args": [E.describe_arg(a) for a in args]})
+                res.cell("f64", cellkey)
+                continue
+            if op.result == "vec":
+                if got.dim != exp.dim:
+                    continue  # the 60-digit layer reports class/dimension differences
+                if op.partial and op.partial < dim:
+                    err = E.rel_error(op, R.project(got.rv, op.partial), R.project(exp.rv, op.partial), unit, gain)
+                else:
+                    e_ = exp.rv
+                    if not R.representable(e_, got.system, mpf(10) ** -6 * unit):
+                        continue
+                    if got.system[-1] == "tau" and abs(e_.tau2) < mpf("0.02") * max(e_.t2, mpf(10) ** -300):
+                        continue
+                    if len(got.system) >= 2 and got.system[1] in ("theta", "eta") and e_.rho < mpf("0.01") * e_.mag:
+                        continue
+                    err = E.rel_error(op, got, e_, unit, gain)
+            else:
+                err = E.rel_error(op, got, exp, unit, gain) / E.cond_gain(op, self_l, args, F_TOL, True)
+            res.err("f64:" + op.group, err)
+            if err > F_TOL:
+                km = knownmech.classify(op, self_l, args, got_scalar_is_zero=(op.result != "vec" and got == 0))
+                res.violation("C01/" + km if km else f"C01/value-differs op={op.name} dim={dim} float64",
+                              {"cell": cellkey, "rel_error": mpmath.nstr(err, 5), "label": draw.label, "self": self_l.describe(),
+                               "args": [E.describe_arg(a) for a in args], "got": _show(got), "cartesian": _show(exp)})
+            res.cell("f64", cellkey)
 
 
 def s_index(sig):
